@@ -161,15 +161,22 @@ func (r *RequireModule) loadAsDirectory(modpath string) (module *js.Object, err 
 	if err != nil {
 		return r.loadIndex(modpath)
 	}
-	var pkg struct {
-		Main string
+	// Only the key spelled exactly "main" counts, and only when its value is a string (decoding into a struct
+	// would also accept "Main" or "MAIN", and a "Main" of another type would make the whole file unusable).
+	var pkg map[string]json.RawMessage
+	var main string
+	if json.Unmarshal(buf, &pkg) == nil {
+		if raw, ok := pkg["main"]; ok {
+			if json.Unmarshal(raw, &main) != nil {
+				main = ""
+			}
+		}
 	}
-	err = json.Unmarshal(buf, &pkg)
-	if err != nil || len(pkg.Main) == 0 {
+	if len(main) == 0 {
 		return r.loadIndex(modpath)
 	}
 
-	m := r.resolvePath(modpath, pkg.Main)
+	m := r.resolvePath(modpath, main)
 	if module, err = r.loadAsFile(m); module != nil || err != nil {
 		return
 	}
